@@ -27,6 +27,11 @@ type countingBackend struct {
 	Delay func(tok string) time.Duration
 	// Stream, if set and true for a token, makes the answer a slow flushed stream
 	Stream func(tok string) bool
+	// ResetAfterExec, if set and true for a token, makes the backend execute the
+	// request and then reset the connection before the first response byte
+	// (nth: how many requests this connection has carried, this one included)
+	ResetAfterExec func(tok string, nth int) bool
+	perConn        map[string]int
 }
 
 func startCountingBackend(w *World) *countingBackend {
@@ -41,6 +46,12 @@ func startCountingBackend(w *World) *countingBackend {
 			io.Copy(io.Discard, r.Body)
 			cb.mu.Lock()
 			cb.Seen[tok]++
+			if cb.perConn == nil {
+				cb.perConn = map[string]int{}
+			}
+			cb.perConn[r.RemoteAddr]++
+			nth := cb.perConn[r.RemoteAddr]
+			reset := cb.ResetAfterExec != nil && cb.ResetAfterExec(tok, nth)
 			d := time.Duration(0)
 			if cb.Delay != nil {
 				d = cb.Delay(tok)
@@ -48,6 +59,15 @@ func startCountingBackend(w *World) *countingBackend {
 			cb.mu.Unlock()
 			if d > 0 {
 				time.Sleep(d)
+			}
+			if reset {
+				if hj, ok := rw.(http.Hijacker); ok {
+					if c, _, err := hj.Hijack(); err == nil {
+						w.K.Count("fault.backend_reset_after_exec")
+						c.(*sim.Conn).Abort()
+						return
+					}
+				}
 			}
 			rw.Header().Set("X-Echo-Token", tok)
 			if cb.Stream != nil && cb.Stream(tok) {
@@ -80,12 +100,16 @@ func worldC04(w *World) {
 	w.K.LatencyMenu = [][]time.Duration{{0}, {0, time.Millisecond, 20 * time.Millisecond}}[t.Choice(2, "latprofile")]
 	fp := NewFakeProxy(w)
 	ids := make([]string, m)
+	bodylessPost := map[string]bool{}
 	for i := range ids {
 		ids[i] = fmt.Sprintf("id%04d", i)
 		method := []string{"GET", "POST"}[t.Choice(2, "method")]
 		var body []byte
 		if method == "POST" {
 			body = tokenBody(ids[i], []int{0, 5, 5000}[t.Choice(3, "bodysize")])
+			if len(body) == 0 {
+				bodylessPost[ids[i]] = true
+			}
 		}
 		fp.AddRequest(ids[i], serialiseRequest(method, "/r/"+ids[i], "example.test", http.Header{"X-Token": {ids[i]}}, body), "")
 	}
@@ -146,6 +170,18 @@ func worldC04(w *World) {
 	failFetch := map[string]int{}
 	failUpload := map[string]bool{}
 	resetUpload := map[string]bool{}
+	// a backend that executes a request and then resets the (reused) connection
+	// before answering: only for body-less POSTs - net/http's transport replays
+	// idempotent requests in that situation, as HTTP allows, and a POST with a
+	// body cannot be replayed
+	resetBackend := map[string]bool{}
+	if faulty {
+		for _, id := range ids {
+			if bodylessPost[id] && t.Rare(1, 2, "backendreset") {
+				resetBackend[id] = true
+			}
+		}
+	}
 	if faulty {
 		for _, id := range ids {
 			switch t.Pick("fault", 6, 1, 1, 1, 2) {
@@ -215,6 +251,13 @@ func worldC04(w *World) {
 	}
 	fp.Start()
 	cb := startCountingBackend(w)
+	cb.ResetAfterExec = func(tok string, nth int) bool {
+		if resetBackend[tok] && nth >= 2 {
+			w.Probe("backend_reset_after_executing_post_on_reused_connection")
+			return true
+		}
+		return false
+	}
 	cb.Delay = func(tok string) time.Duration {
 		if tok == slowID && slowID != "" {
 			return 10 * time.Minute // outstanding for the whole run
